@@ -136,6 +136,14 @@ class C14(Prop):
                     k = rng.randrange(1, len(ax["labels"]))
                     ax["labels"][k] = ax["labels"][0]
                     c["_duplicates"] = True
+                if which == "sort_axis" and rng.random() < 0.35:
+                    # a long axis with repeated labels and an explicit sorting algorithm: above 16 entries NumPy's
+                    # quicksort and heapsort reorder equal keys, kind='stable'/'mergesort' must not - for the Dataset as
+                    # for each variable
+                    base = ax["labels"] or [gen.absent_label(rng, ax)]
+                    ax["labels"] = [rng.choice(base) for _ in range(rng.randint(17, 24))]
+                    c["_duplicates"] = True
+                    c["sort_kind"] = rng.choice(["stable", "mergesort", "stable", "quicksort", "heapsort", None])
                 if which == "take_axis":
                     c["indices"] = [rng.choice(ax["labels"]) for _ in range(rng.randint(1, 3))]
                 if which == "reindex_axis":
@@ -249,8 +257,9 @@ class C14(Prop):
                     r = ds.take_axis(ix, axis=self.key_of(c, ds))
                     return r, per_var(lambda v: v.take_axis(ix, axis=c["dim"])), True
                 if op == "sort_axis":
-                    r = ds.sort_axis(axis=self.key_of(c, ds))
-                    return r, per_var(lambda v: v.sort_axis(axis=c["dim"])), True
+                    kws = {"kind": c["sort_kind"]} if c.get("sort_kind") else {}
+                    r = ds.sort_axis(axis=self.key_of(c, ds), **kws)
+                    return r, per_var(lambda v: v.sort_axis(axis=c["dim"], **kws)), True
                 if op == "reindex_axis":
                     kind = c["ds"]["axes"][c["dim"]]["kind"]
                     lab = core.label_array(c["labels"], kind)
@@ -308,6 +317,12 @@ class C14(Prop):
 
     LEAN_OPS = ("take", "reduce", "take_axis", "sort_axis", "reindex_axis")
 
+    @staticmethod
+    def unstable_sort(c):
+        """a long axis with repeated labels sorted by an algorithm that is not stable: the order among equal labels is
+        NumPy's business (the model's argsort is the stable one); the commuting square is still checked on the implementation"""
+        return c["op"] == "sort_axis" and "sort_kind" in c and c["sort_kind"] not in ("stable", "mergesort")
+
     def lean_vars(self, c):
         """the Dataset's variables as arrays for the Lean side (cells of variable k are `src k i`)"""
         dd = c["ds"]
@@ -320,7 +335,7 @@ class C14(Prop):
 
     def request(self, c):
         op = c["op"]
-        if op not in self.LEAN_OPS or (op == "take" and c["second"]):
+        if op not in self.LEAN_OPS or (op == "take" and c["second"]) or self.unstable_sort(c):
             # interp / arithmetic / stack_ds / concatenate_ds and two-dimensional takes: decided by the commuting
             # square on the implementation only
             return {"op": "union", "a": {"name": "x", "kind": "i", "labels": []}, "b": {"name": "x", "kind": "i", "labels": []}, "join": "outer"}
@@ -344,7 +359,7 @@ class C14(Prop):
     def lean_vs_impl(self, c, io, ans):
         """correspondence: the Lean Dataset model against the Dataset implementation"""
         lean = ans.get("lib")
-        if c["op"] not in self.LEAN_OPS or (c["op"] == "take" and c["second"]) or not isinstance(lean, dict) or ("ok" not in lean and "err" not in lean):
+        if c["op"] not in self.LEAN_OPS or (c["op"] == "take" and c["second"]) or self.unstable_sort(c) or not isinstance(lean, dict) or ("ok" not in lean and "err" not in lean):
             return []
         if "err" in io or "err" in lean:
             if ("err" in io) != ("err" in lean):
